@@ -1,1 +1,2 @@
 import MLGen.Tables
+import MLGen.Funcs
